@@ -485,3 +485,33 @@ def write_ndjson(path, recs):
     with open(path, "w") as fh:
         for r in recs:
             fh.write(json.dumps(r, separators=(",", ":")) + "\n")
+
+
+def tlc_oracle(module, cfg, cases, workdir, max_skips=300, timeout=3000):
+    """TLC as oracle: `module` reads the ndjson file IOEnv.CASES and prints one
+    GEN record (with the case's id) per case.  A case whose exact arithmetic
+    overflows TLC's 32-bit integers is dropped (counted).  Returns
+    ({id: record}, skipped, TlcResult-accumulated states)."""
+    expected, skipped, states = {}, 0, 0
+    remaining = list(cases)
+    path = os.path.join(workdir, "oracle_%s.ndjson" % module)
+    while remaining:
+        write_ndjson(path, remaining)
+        r = tlc(module, cfg, workers=1, coverage=False, env={"CASES": path}, timeout=timeout)
+        states += r.distinct
+        ids = []
+        for g in r.gen:
+            if g["id"] not in expected:
+                ids.append(g["id"])
+            expected[g["id"]] = g
+        done = len(set(ids))
+        if r.rc == 0 and not r.error:
+            break
+        if r.error and "Overflow" in r.out and done < len(remaining):
+            skipped += 1
+            if skipped > max_skips:
+                raise ToolingError("oracle %s: too many overflowing cases" % module)
+            remaining = remaining[done + 1:]
+            continue
+        raise ToolingError("oracle %s failed: %s" % (module, (r.error or "")[:800]))
+    return expected, skipped, states
